@@ -9,6 +9,8 @@ use crate::{
     lexer::{cursor::Cursor, LiteralKind, Token, TokenKind},
     symbol::{DirKind, InstrKind, Label, Register, Span, SrcOffset, TrapKind},
 };
+#[cfg(lace_verif)]
+use crate::verif_println as println;
 
 /// Replaces raw value directives .fill, .blkw, .stringz with equivalent raw bytes
 /// Returns a 'final' vector of tokens. This is easier than working with an iterator that can
